@@ -1,7 +1,7 @@
 #!/venv/bin/python
 """Run the registered checks against every seeded change (scratch copy of /repo/canopen + patch; never /repo itself).
 
-usage: tools/seedrun.py [--all-props] [seed-id ...]
+usage: tools/seedrun.py [--own] [--verbose] [seed-id ...]     (--own: only the owning property's check)
 Prints one line per seed: which properties' checks fire (exit 1), which say ANALYSIS-ERROR (exit 2).
 """
 import json, os, shutil, subprocess, sys, tempfile
@@ -22,7 +22,7 @@ def one(seed):
             return seed, "APPLY-FAIL " + r.stdout[:200], [], []
         own = json.load(open(os.path.join(V, "seeded", seed, "meta.json")))["property"]
         fired, err, det = [], [], []
-        todo = props if "--all-props" in sys.argv else props
+        todo = [own] if "--own" in sys.argv else props
         for p in todo:
             env = dict(os.environ, VERIF_NO_EVIDENCE="1")
             r = subprocess.run(["/venv/bin/python", os.path.join(V, "check"), p, "--repo", d], capture_output=True, text=True, env=env)
